@@ -183,6 +183,12 @@ func main() {
 		for _, l := range st.Trace {
 			fmt.Println("  trace:", l)
 		}
+		if os.Getenv("VERIF_STATS") != "" {
+			// Development aid: the counters (reach probes) of the replayed run.
+			for _, name := range st.SortedCounters() {
+				fmt.Printf("  counter: %s = %d\n", name, st.Counters[name])
+			}
+		}
 		if v == nil {
 			fmt.Println("NOT REPRODUCED: the scenario executed without violation")
 			os.Exit(0)
